@@ -1,0 +1,32 @@
+//go:build verif
+
+package rtpklv
+
+// Contracts checked by /verif/govc (see /verif/DESIGN.md). Comment-only file.
+
+//@ func (e *Encoder) Encode
+//@   opt frame-tag=C06
+//@   requires e.SSRC != nil && e.PayloadMaxSize >= 1 && len(unit) >= 1
+//@   ensures[C06] err == nil && len(ret) >= 1
+//@   ensures[C06] forall j :: 0 <= j && j < len(ret) ==> ret[j] != nil && len(ret[j].Payload) <= e.PayloadMaxSize && len(ret[j].Payload) >= 1
+//@   ensures[C06] forall j :: 0 <= j && j < len(ret) ==> ret[j].SequenceNumber == old(e.sequenceNumber) + uint16(j)
+//@   ensures[C06] e.sequenceNumber == old(e.sequenceNumber) + uint16(len(ret))
+//@   ensures[C06] forall j :: 0 <= j && j < len(ret) ==> ret[j].Marker == (j == len(ret)-1)
+//@   ensures[C06] forall j :: 0 <= j && j < len(ret) ==> ret[j].PayloadType == e.PayloadType && ret[j].SSRC == *e.SSRC
+//@   ensures[C03] forall j :: 0 <= j && j < len(ret) ==> ref(ret[j].Payload) == ref(unit) && off(ret[j].Payload) == off(unit) + j*e.PayloadMaxSize
+//@   ensures[C03] forall j :: 0 <= j && j < len(ret)-1 ==> len(ret[j].Payload) == e.PayloadMaxSize
+//@   ensures[C03] (len(ret)-1)*e.PayloadMaxSize + len(ret[len(ret)-1].Payload) == len(unit)
+//@   modifies e.sequenceNumber, fresh
+//@   loop 1
+//@     invariant 0 <= offset && offset <= len(unit) && len(packets) >= 0 && (packets != nil ==> fresh(packets))
+//@     invariant offset < len(unit) ==> offset == len(packets)*e.PayloadMaxSize
+//@     invariant offset >= len(unit) ==> len(packets) >= 1 && (len(packets)-1)*e.PayloadMaxSize + len(packets[len(packets)-1].Payload) == len(unit)
+//@     invariant e.sequenceNumber == old(e.sequenceNumber) + uint16(len(packets))
+//@     invariant e.SSRC == old(e.SSRC) && e.PayloadMaxSize == old(e.PayloadMaxSize) && e.PayloadType == old(e.PayloadType) && *e.SSRC == old(*e.SSRC)
+//@     invariant forall j :: 0 <= j && j < len(packets) ==> packets[j] != nil && fresh(packets[j]) && len(packets[j].Payload) <= e.PayloadMaxSize && len(packets[j].Payload) >= 1
+//@     invariant forall j :: 0 <= j && j < len(packets) ==> packets[j].SequenceNumber == old(e.sequenceNumber) + uint16(j)
+//@     invariant forall j :: 0 <= j && j < len(packets) ==> packets[j].Marker == (j == len(packets)-1 && offset >= len(unit))
+//@     invariant forall j :: 0 <= j && j < len(packets) ==> packets[j].PayloadType == e.PayloadType && packets[j].SSRC == *e.SSRC
+//@     invariant forall j :: 0 <= j && j < len(packets) ==> ref(packets[j].Payload) == ref(unit) && off(packets[j].Payload) == off(unit) + j*e.PayloadMaxSize
+//@     invariant forall j :: 0 <= j && j < len(packets) && (j < len(packets)-1 || offset < len(unit)) ==> len(packets[j].Payload) == e.PayloadMaxSize
+//@     decreases len(unit) - offset
